@@ -461,6 +461,16 @@ def main(tier, seed):
                     if kind.startswith("nonideal"):
                         spec.update(curves=spaces.CURVE_CONFIGS["one"], init_perm=None)
                     models.append(spec)
+    # slow runs: every state differs from its predecessor only in the 6th-8th significant digit (tiny area, big feed, short
+    # steps; a programme of 2 mK per hour) - a loader that "tidies" nearly constant series is wrong exactly there
+    for kind in traces.KINDS:
+        for mode in ("vac", ("p", 0.5)):
+            for prog in (("none", "poly_slow") if kind.endswith("noniso") else ("none",)):
+                spec = {"kind": kind, "mixture": "H2O_EtOH", "model": "NRTL", "mode": mode, "prog": prog, "area": 1e-3, "amount": 100.0, "dt": 0.01,
+                        "steps": 4, "x0": core.lat([0.1, 0.3], seed)[0], "basis": "weight", "T": 333.15}
+                if kind.startswith("nonideal"):
+                    spec.update(curves=spaces.CURVE_CONFIGS["one"], init_perm=None)
+                models.append(spec)
     rt = [{"model": mdl, "is_safe": s} for mdl in models for s in (False, True)]
     rt += [{"model": mdl, "is_safe": s, "perm_units": u} for mdl in models[::3] for s in (False, True) for u in ("SI", "GPU")]
     traces.Setup(dict(models[-1], steps=1)).run(steps=1)
